@@ -61,7 +61,20 @@ Definition is_ident_start (c : ascii) : bool :=
 Definition is_digit (c : ascii) : bool :=
   let n := nat_of_ascii c in ((48 <=? n) && (n <=? 57)). 
 
+Fixpoint has_dquote (s : string) : bool :=
+  match s with
+  | EmptyString => false
+  | String c rest => Ascii.eqb c """" || has_dquote rest
+  end.
+Fixpoint last_is_quote (s : string) : bool :=
+  match s with
+  | EmptyString => false
+  | String c EmptyString => Ascii.eqb c "'"
+  | String _ rest => last_is_quote rest
+  end.
+
 Definition lex_word (w : string) : tok :=
+  if has_dquote w then TL w else
   match w with
   | "(" => TO DParen | ")" => TC DParen
   | "{" => TO DBrace | "}" => TC DBrace
@@ -73,7 +86,7 @@ Definition lex_word (w : string) : tok :=
       else if Ascii.eqb c "'" then
              match rest with
              | EmptyString => TP w
-             | _ => TLt rest
+             | _ => if last_is_quote rest then TL w else TLt rest
              end
       else TP w
   | EmptyString => TP ""
